@@ -34,6 +34,20 @@ PLANS = {
                 "differs from the input, or that has >1 morpheme, an empty-range morpheme or a split token",
         "assumptions": COMMON_ASSUMPTIONS,
     },
+    "C02": lambda tier: {
+        "level": "exploration",
+        "stages": [main_stage(40, 240, tier)],
+        "require": ["lattice_nodes_checked", "lattices_with_alternative_paths", "results_compared_with_chain",
+                    "dictionary_candidates_expected_and_found", "worlds_nonsquare_matrix"],
+        "rule": "seeded worlds (square and non-square matrices with negative / extreme costs, inhibited pairs, homographs, "
+                "overlapping keys, user dictionaries, random OOV stacks; path-rewrite plugins in 1 of 5 worlds) x texts of "
+                "<=200 chars; the complete lattice is read through hook H4 and an independent i64 shortest-path DP over the "
+                "observed nodes (costs from the generated matrix text, never ConnectionMatrix::cost) is compared with every "
+                "node's total cost, the EOS cost, the back-pointer chain, Morpheme::total_cost and get_internal_cost; every "
+                "source-CSV row matching at a reachable boundary must be present with its declared parameters. "
+                "distinct_nontrivial = distinct (world,text) whose lattice has complete paths of different cost",
+        "assumptions": COMMON_ASSUMPTIONS + ["permissible word ends are taken from InputBuffer::can_bow (checked against its own model in C13)"],
+    },
 }
 
 
